@@ -135,6 +135,8 @@ class Scheduler:
         self.thread_exceptions = []
         self.points_in_window = 0
         self.divergence = None
+        self.lock_points = True             # False: uncontended lock operations are not scheduling points
+        self.on_point = None                # harness invariant evaluated at every scheduling point in the window
         self.snapshot = None
         main = VThread(0, "main")
         main.started = True
@@ -288,6 +290,8 @@ class Scheduler:
         cur.label = label
         if self.window:
             self.points_in_window += 1
+            if self.on_point is not None:
+                self.on_point()
             if self.fingerprint is not None:
                 self.fps.add(hash((tuple((t.tid, t.finished, t.label) for t in self.threads), self.fingerprint())))
         if self.steps > self.horizon:
@@ -592,7 +596,10 @@ class CRLock:
 
     def acquire(self, blocking=True, timeout=-1):
         s = self._s
-        s.point("rlock.acquire")
+        if s.lock_points:
+            s.point("rlock.acquire")
+        elif s.abort:
+            raise ExecutionAbort()
         me = s.me()
         if self._owner is me:
             self._count += 1
@@ -613,7 +620,8 @@ class CRLock:
 
     def release(self):
         s = self._s
-        s.point("rlock.release")
+        if s.lock_points:
+            s.point("rlock.release")
         if self._owner is not s.me():
             raise RuntimeError("cannot release un-acquired lock")
         self._count -= 1
@@ -636,7 +644,10 @@ class CLock:
 
     def acquire(self, blocking=True, timeout=-1):
         s = self._s
-        s.point("lock.acquire")
+        if s.lock_points:
+            s.point("lock.acquire")
+        elif s.abort:
+            raise ExecutionAbort()
         if not blocking:
             if self._owner is not None:
                 return False
@@ -651,7 +662,8 @@ class CLock:
     __enter__ = acquire
 
     def release(self):
-        self._s.point("lock.release")
+        if self._s.lock_points:
+            self._s.point("lock.release")
         if self._owner is None:
             raise RuntimeError("release unlocked lock")
         self._owner = None
